@@ -93,6 +93,9 @@ pub static mut SELECT_CUT_AFTER: usize = usize::MAX;
 pub static mut BULK_CUT_AFTER: usize = usize::MAX;
 pub static mut SELECT_CALLS: usize = 0;
 pub static mut BULK_CALLS: usize = 0;
+/// Length of the view the harness called the routine on; a cut asserts that the
+/// sub-view it stands for is strictly shorter (well-foundedness of the induction).
+pub static mut STEP_PARENT_LEN: usize = usize::MAX;
 
 /// Fisher-Yates with symbolic choices: reaches every permutation of the view
 /// using swaps only.
@@ -147,6 +150,10 @@ pub fn bulk_cut<A: Ord + Clone>(
         }
     }
     let n = array.len();
+    assert!(
+        unsafe { n < STEP_PARENT_LEN },
+        "contract precondition: recursion on a strictly shorter view"
+    );
     assert!(indexes.len() == values.len(), "contract precondition: one value slot per index");
     let mut k = 0;
     while k < indexes.len() {
@@ -181,6 +188,10 @@ pub fn select_cut<A: Ord + Clone>(array: &mut ndarray::ArrayViewMut1<'_, A>, i: 
         }
     }
     let n = array.len();
+    assert!(
+        unsafe { n < STEP_PARENT_LEN },
+        "contract precondition: recursion on a strictly shorter view"
+    );
     assert!(i < n, "contract precondition: index in bounds");
     let r = pick_rank(array, i);
     havoc_permute(array);
